@@ -74,7 +74,15 @@ func runSolver(ctx context.Context, sp solverSpec, file string, timeoutS, seed i
 	_ = cmd.Run()
 	el := time.Since(start).Seconds()
 	s := out.String()
-	first := strings.TrimSpace(strings.SplitN(s, "\n", 2)[0])
+	first := ""
+	for _, l := range strings.Split(s, "\n") {
+		l = strings.TrimSpace(l)
+		if l == "" || strings.HasPrefix(l, "WARNING") {
+			continue
+		}
+		first = l
+		break
+	}
 	switch first {
 	case "unsat", "sat", "unknown", "timeout":
 	default:
